@@ -112,6 +112,12 @@ def dispatch (f : String) (j : Json) : Option Json :=
       return Json.arr (items.map (fun it => match it with
         | [n, p] => ofNat (Pfst.SharedDelims.annSimple (n != 0) p)
         | _ => Json.null)).toArray
+  | "C08.posafter" => some <| Id.run do
+      let some a := getArr j "items" | return Json.mkObj [("err", "bad items")]
+      let some items := a.toList.mapM asNats | return Json.mkObj [("err", "bad item")]
+      return Json.arr (items.map (fun it => match it with
+        | [l1, c1, l2, c2] => Json.bool (Pfst.SharedDelims.posAfter l1 c1 l2 c2)
+        | _ => Json.null)).toArray
   | "C08.elif" => some <| Id.run do
       -- batch of [hasPre, hasPost, isOrelse, tgtIsIf, optElif, oldIsElif, putLen, putFirstIsIf] → 0 keep / 1 toElif / 2 toElse
       let some a := getArr j "items" | return Json.mkObj [("err", "bad items")]
